@@ -136,15 +136,13 @@ def oracle(h):
         return fails                    # the start itself is outside the invariant (not a start the library produces)
     if (w0["st"] > 3) != w0["wr"]:
         return fails
-    cls_hist = None                     # a class-D12 / D20 step occurred: numbering claims are void from there on
+    cls_hist = None                     # a class-D20 step occurred: numbering claims are void from there on
     sent = {}                           # number -> frame projection of the NEW frames written
     for i, (op, step) in enumerate(zip(h.ops, h.steps)):
         before, after = h.worlds[i], h.worlds[i + 1]
         wires = [sc.msg_uncodes(e[1]) for e in step[1] if e[0] == 0]
-        if op[0] == 0 and op[1][0] == "2" and before["st"] > 3:
-            cls_hist = cls_hist or "D12-resend-rewind"
-        if op[0] == 1 and (op[1][0] == "4" or _tag(op[1], "43") == "Y") and step[0] != 4:
-            cls_hist = cls_hist or "D20-app-raw-seqnum"
+        if op[0] == 1 and op[1][0] == "4" and _tag(op[1], "123") != "Y" and _tag(op[1], "43") != "Y" and step[0] != 4:
+            cls_hist = cls_hist or "D20-app-raw-seqnum"     # application-sent SequenceReset that is not a gap fill
         keys_before = [n for n, _ in before["out_rows"]]
         keys_after = [n for n, _ in after["out_rows"]]
         # --- refused sends are free ---
@@ -155,7 +153,8 @@ def oracle(h):
         if op[0] == 1 and before["st"] < 6 and step[0] != 4:
             fails.append((i, "send on a connection in state %d was not refused" % before["st"], None))
         # --- new frames: consecutive numbers, journaled under their number, stored counter follows ---
-        new = [w for w in wires if not (w[0] == "4" or _tag(w, "43") == "Y")]
+        # new = not a reply to a ResendRequest (PossDupFlag=Y retransmission / SequenceReset-GapFill)
+        new = [w for w in wires if not (_tag(w, "43") == "Y" or (w[0] == "4" and _tag(w, "123") == "Y"))]
         for w in new:
             n = _int(_tag(w, "34"))
             if n != expected:
@@ -174,14 +173,14 @@ def oracle(h):
                     fails.append((i, "stored outbound counter is %r after frame %d was sent" % (after["sout"], last), cls_hist))
                 if after["nout"] != last + 1:
                     fails.append((i, "next_num_out is %r after frame %d was sent" % (after["nout"], last), cls_hist))
-        elif not wires:
-            if (after["nout"], after["sout"], keys_after) != (before["nout"], before["sout"], keys_before) and not (
-                    op[0] == 0 and op[1][0] == "4"):
-                fails.append((i, "nothing was written but the outbound numbers / journal changed: %r -> %r" % (
-                    (before["nout"], before["sout"]), (after["nout"], after["sout"])), cls_hist))
+        else:
+            # nothing new was written (nothing at all, or retransmissions / gap fills only): numbers and journal stay
+            if (after["nout"], after["sout"], keys_after) != (before["nout"], before["sout"], keys_before):
+                fails.append((i, "no new frame was written but the outbound numbers / journal changed: %r -> %r" % (
+                    (before["nout"], before["sout"], keys_before), (after["nout"], after["sout"], keys_after)), cls_hist))
         if len(fails) >= 3:
             return fails
-    # --- the journal gives back what was sent (end of history; rows deleted by D12 steps excepted) ---
+    # --- the journal gives back what was sent (end of history) ---
     final = {n: sc.msg_uncodes(m) for n, m in h.final_rows}
     for n, w in sent.items():
         if cls_hist is None and final.get(n) != w:
